@@ -94,7 +94,7 @@ def gen_cases(rng, tier):
                 cases.append(_case("c1-%d" % n, m, [c], [m])); n += 1
         cases.append(_case("drib-%d" % n, m, list(range(1, len(m))), [m])); n += 1
     short = sorted(ms, key=len)[:5]
-    kas = [b"", b"\r\n", b"\r\n\r\n"]
+    kas = [b"", b"\r\n", b"\r\n\r\n", b"\r\n" * 3, b"\r\n" * 4, b"\r\n" * 7]     # pongs and pings queue up
     for i, a in enumerate(short):
         for b in short[:3]:
             for ka in kas:
